@@ -92,14 +92,14 @@ func allBufStates() []bufState {
 
 func bufGhosts() map[string]engine.AbsVal {
 	return map[string]engine.AbsVal{
-		"#pending": str("none"), "#len0": str("T"), "#mk": str(""), "#vu": str("ok"), "#dirty": str("F"), "#ctx": str("none"), "#dropped": str("F"),
+		"#pending": str("none"), "#len0": str("T"), "#mk": str(""), "#vu": str("ok"), "#dirty": str("F"), "#ctx": str("none"), "#dropped": str("F"), "#fin": str("F"),
 	}
 }
 
 func bufFields(s bufState) map[string]engine.AbsVal {
 	return map[string]engine.AbsVal{
 		"mode": num(s.Mode), "markerOpen": boolv(s.Open),
-		"#pending": str(s.Pending), "#len0": str(s.Len0), "#mk": str(""), "#vu": str("ok"), "#dirty": str("F"), "#ctx": str("none"), "#dropped": str("F"),
+		"#pending": str(s.Pending), "#len0": str(s.Len0), "#mk": str(""), "#vu": str("ok"), "#dirty": str("F"), "#ctx": str("none"), "#dropped": str("F"), "#fin": str("F"),
 	}
 }
 
@@ -132,6 +132,7 @@ type bufHooks struct {
 	engine.BaseHooks
 	start, end string
 	pure       map[string]bool
+	finalizeFn *ssa.Function // the function every accessor runs on its copy before handing bytes out
 }
 
 func (h *bufHooks) set(c *engine.Ctx, obj, prefix, ghost, val string) {
@@ -144,6 +145,28 @@ func (h *bufHooks) set(c *engine.Ctx, obj, prefix, ghost, val string) {
 		p = prefix + "." + ghost
 	}
 	o.Fields[p] = str(val)
+}
+
+// unfinal: bytes were added or the mode changed — the object is no longer
+// "just finalized" (resetting fields to zero, as Take/Reset do, is not that).
+func (h *bufHooks) unfinal(c *engine.Ctx, obj, prefix string) {
+	h.set(c, obj, prefix, "#fin", "F")
+}
+
+// AfterCall: the finalizing function has run to completion on its receiver.
+func (h *bufHooks) AfterCall(c *engine.Ctx, instr ssa.Instruction, callee *ssa.Function, args []engine.AbsVal, before, after engine.Heap, exc bool) {
+	if exc || h.finalizeFn == nil || callee != h.finalizeFn || len(args) == 0 {
+		return
+	}
+	if p, ok := args[0].(engine.Ptr); ok {
+		if o := after[p.Obj]; o != nil {
+			fp := "#fin"
+			if p.Path != "" {
+				fp = p.Path + ".#fin"
+			}
+			o.Fields[fp] = str("T")
+		}
+	}
 }
 
 func (h *bufHooks) verdict(c *engine.Ctx, instr ssa.Instruction, rule string, ok bool, what string, cfg string) {
@@ -171,6 +194,7 @@ func (h *bufHooks) dataWrite(c *engine.Ctx, instr ssa.Instruction, so engine.Sli
 	}
 	h.set(c, so.Obj, prefix, "#len0", "U")
 	h.set(c, so.Obj, prefix, "#dirty", "T")
+	h.unfinal(c, so.Obj, prefix)
 }
 
 func (h *bufHooks) markerWrite(c *engine.Ctx, instr ssa.Instruction, so engine.SliceOf, which string) {
@@ -185,6 +209,7 @@ func (h *bufHooks) markerWrite(c *engine.Ctx, instr ssa.Instruction, so engine.S
 	h.set(c, so.Obj, prefix, "#mk", which)
 	h.set(c, so.Obj, prefix, "#len0", "U")
 	h.set(c, so.Obj, prefix, "#dirty", "T")
+	h.unfinal(c, so.Obj, prefix)
 }
 
 func (h *bufHooks) OnBuiltin(c *engine.Ctx, instr ssa.Instruction, name string, args []engine.AbsVal) {
@@ -305,6 +330,9 @@ func (h *bufHooks) onStore(c *engine.Ctx, instr ssa.Instruction, addr engine.Ptr
 	switch leaf {
 	case "buf":
 		h.set(c, addr.Obj, prefix, "#dirty", "T")
+		if _, isNil := val.(engine.NilV); !isNil {
+			h.unfinal(c, addr.Obj, prefix)
+		}
 		switch v := val.(type) {
 		case engine.NilV:
 			h.set(c, addr.Obj, prefix, "#dropped", "T")
@@ -379,6 +407,9 @@ func (h *bufHooks) onStore(c *engine.Ctx, instr ssa.Instruction, addr engine.Ptr
 	case "mode":
 		h.set(c, addr.Obj, prefix, "#dirty", "T")
 		n, known := constInt(val)
+		if !known || n != 0 {
+			h.unfinal(c, addr.Obj, prefix)
+		}
 		h.verdict(c, instr, "I8", known && s.Pending == "none" && (mk == "" || mk == "reset") && (n == 0 || !s.Open || mk == "reset") && vu == "ok",
 			"mode changed; requires pending bytes flushed, envelope closed unless the new mode is Unsafe, validUntil re-established", cfg+" new="+modeName(val))
 	}
@@ -404,8 +435,17 @@ func (h *bufHooks) OnEscape(c *engine.Ctx, instr ssa.Instruction, v engine.AbsVa
 	if !ok {
 		return
 	}
-	h.verdict(c, instr, "I7", s.Pending == "none" && !s.Open && mk == "" && vu == "ok",
-		"buffer content handed out ("+how+"); requires finalize to have run on this object", s.String()+" mk="+mk+" vu="+vu)
+	fin := "?"
+	if o := c.Heap[so.Obj]; o != nil {
+		fp := "#fin"
+		if pre := bufPrefixOfSlice(so.Path); pre != "" {
+			fp = pre + ".#fin"
+		}
+		fin, _ = constStr(o.Fields[fp])
+	}
+	okFin := h.finalizeFn == nil || fin == "T"
+	h.verdict(c, instr, "I7", s.Pending == "none" && !s.Open && mk == "" && vu == "ok" && okFin,
+		"buffer content handed out ("+how+"); requires finalize to have run on this object (a buffer with nothing pending may still end in a lone invalid byte that finalizing completes)", s.String()+" mk="+mk+" vu="+vu+" fin="+fin)
 }
 
 // RunABuf performs the A-buf run.
@@ -432,6 +472,7 @@ func (c *Ctx) ABuf() *ABuf {
 		NoPanicPkgs: map[string]bool{pkgBuffer: true},
 		Hooks:       hooks,
 	}
+	hooks.finalizeFn = c.finalizeFn()
 	a.It = engine.New(cfg)
 	sp := c.P.SSAPkg("internal/buffer")
 	bt := sp.Type("Buffer").Type()
